@@ -23,6 +23,7 @@ import (
 	"time"
 
 	"github.com/zenon-network/go-zenon/chain/nom"
+	"github.com/zenon-network/go-zenon/common/db"
 	"github.com/zenon-network/go-zenon/common/types"
 	"github.com/zenon-network/go-zenon/vm/constants"
 	"github.com/zenon-network/go-zenon/vm/embedded/definition"
@@ -111,6 +112,7 @@ func takeSnapshot(n *vnode.Node, pool bool) (*snapshot, string, string) {
 		}
 		s.lastEpoch[c] = le.LastEpoch
 		credited := map[types.Address][2]*big.Int{}
+		epochSum := map[int64][2]*big.Int{}
 		maxEpoch := le.LastEpoch + 3
 		for e := int64(0); e <= maxEpoch; e++ {
 			sumZ, sumQ := new(big.Int), new(big.Int)
@@ -137,10 +139,15 @@ func takeSnapshot(n *vnode.Node, pool bool) (*snapshot, string, string) {
 				cz[1].Add(cz[1], h.Qsr)
 				credited[a] = cz
 			}
+			epochSum[e] = [2]*big.Int{sumZ, sumQ}
 			bz, bq := emissionShare(c, uint64(e))
 			if sumZ.Cmp(bz) > 0 || sumQ.Cmp(bq) > 0 {
 				return s, "credited-exceeds-emission", fmt.Sprintf("contract %v credited %v ZNN / %v QSR for epoch %d, its share of the emission is %v / %v", c, sumZ, sumQ, e, bz, bq)
 			}
+		}
+		// (2') exactly once also means not zero times: the cursor moves only past epochs that were rewarded
+		if k, msg := rewardedUpToCursor(n, v, c, st, le.LastEpoch, epochSum); k != "" {
+			return s, k, msg
 		}
 		// (3) credited == collected + pending
 		collected := map[types.Address][2]*big.Int{}
@@ -205,6 +212,136 @@ func takeSnapshot(n *vnode.Node, pool bool) (*snapshot, string, string) {
 		}
 	}
 	return s, "", ""
+}
+
+// rewardedUpToCursor: every epoch at or below a contract's cursor must have been rewarded. What "rewarded" leaves behind
+// differs per contract:
+//
+//	liquidity: every epoch mints the contract's share to the contract itself: Σ minted == Σ_{e ≤ cursor} share(e), exactly
+//	stake:     a stake entry (still) in storage that was active during e means the whole share of e was distributed
+//	           pro rata (rounded down per entry): Σ credited(e) ≥ share(e) − 16
+//	sentinel:  the same for a sentinel entry with more than 90 % uptime in e
+//	pillar:    an epoch in which momentums were produced credits block rewards: Σ credited ZNN(e) > 0
+func rewardedUpToCursor(n *vnode.Node, v *ledger.View, c types.Address, st db.DB, cursor int64, epochSum map[int64][2]*big.Int) (string, string) {
+	if cursor < 0 {
+		return "", ""
+	}
+	ticker := n.Cons.FrontierPillarReader().EpochTicker()
+	sum := func(e int64, i int) *big.Int {
+		if x, ok := epochSum[e]; ok && x[i] != nil {
+			return x[i]
+		}
+		return new(big.Int)
+	}
+	slack := big.NewInt(16)
+	switch c {
+	case types.LiquidityContract:
+		mintedZ, mintedQ, mints := new(big.Int), new(big.Int), 0
+		if ac := v.Accounts[c]; ac != nil {
+			for _, b := range ac.Blocks {
+				if b.BlockType != nom.BlockTypeContractReceive {
+					continue
+				}
+				for _, d := range b.DescendantBlocks {
+					if d.ToAddress != types.TokenContract {
+						continue
+					}
+					param := new(definition.MintParam)
+					if err := definition.ABIToken.UnpackMethod(param, definition.MintMethodName, d.Data); err != nil || param.ReceiveAddress != c {
+						continue
+					}
+					mints++
+					switch param.TokenStandard {
+					case types.ZnnTokenStandard:
+						mintedZ.Add(mintedZ, param.Amount)
+					case types.QsrTokenStandard:
+						mintedQ.Add(mintedQ, param.Amount)
+					}
+				}
+			}
+		}
+		wantZ, wantQ := new(big.Int), new(big.Int)
+		for e := int64(0); e <= cursor; e++ {
+			z, q := emissionShare(c, uint64(e))
+			wantZ.Add(wantZ, z)
+			wantQ.Add(wantQ, q)
+		}
+		if mintedZ.Cmp(wantZ) < 0 || mintedQ.Cmp(wantQ) < 0 {
+			key := "liquidity:cursor-advanced-past-an-unrewarded-epoch"
+			if cursor+1 > 10 {
+				key = "liquidity:Update-with-more-than-10-epochs-due:cursor-advanced-past-an-unrewarded-epoch"
+			}
+			return key, fmt.Sprintf("the liquidity contract's last rewarded epoch is %d (%d epochs) but it minted only %v ZNN / %v QSR to itself in %d mint blocks (%d epochs' worth); the shares of epochs 0..%d add up to %v / %v",
+				cursor, cursor+1, mintedZ, mintedQ, mints, mints/2, cursor, wantZ, wantQ)
+		}
+		if mintedZ.Cmp(wantZ) > 0 || mintedQ.Cmp(wantQ) > 0 {
+			return "liquidity:minted-more-than-the-rewarded-epochs-share", fmt.Sprintf("the liquidity contract minted %v ZNN / %v QSR to itself, the shares of epochs 0..%d add up to %v / %v", mintedZ, mintedQ, cursor, wantZ, wantQ)
+		}
+	case types.StakeContract:
+		var entries []*definition.StakeInfo
+		if err := definition.IterateStakeEntries(st, func(e *definition.StakeInfo) error { entries = append(entries, e); return nil }); err != nil {
+			panic(err)
+		}
+		for e := int64(0); e <= cursor; e++ {
+			t0, t1 := ticker.ToTime(uint64(e))
+			for _, en := range entries {
+				from := en.StartTime
+				if t0.Unix() > from {
+					from = t0.Unix()
+				}
+				if en.StartTime < t1.Unix() && (en.RevokeTime == 0 || en.RevokeTime > from) && en.WeightedAmount.Sign() > 0 {
+					_, share := emissionShare(c, uint64(e))
+					if new(big.Int).Add(sum(e, 1), slack).Cmp(share) < 0 {
+						return "stake:cursor-advanced-past-an-unrewarded-epoch", fmt.Sprintf("the stake contract's last rewarded epoch is %d; stake %v of %v was active during epoch %d, but only %v QSR were credited for that epoch (share %v)",
+							cursor, en.Id, en.StakeAddress, e, sum(e, 1), share)
+					}
+					break
+				}
+			}
+		}
+	case types.SentinelContract:
+		var entries []*definition.SentinelInfo
+		if err := definition.IterateSentinelEntries(st, func(e *definition.SentinelInfo) error { entries = append(entries, e); return nil }); err != nil {
+			panic(err)
+		}
+		for e := int64(0); e <= cursor; e++ {
+			t0, t1 := ticker.ToTime(uint64(e))
+			dur := t1.Unix() - t0.Unix()
+			for _, en := range entries {
+				from, to := t0.Unix(), t1.Unix()
+				if en.RegistrationTimestamp > from {
+					from = en.RegistrationTimestamp
+				}
+				if en.RevokeTimestamp != 0 && en.RevokeTimestamp < to {
+					to = en.RevokeTimestamp
+				}
+				if from < to && dur*90 < (to-from)*100 {
+					shareZ, shareQ := emissionShare(c, uint64(e))
+					if new(big.Int).Add(sum(e, 0), slack).Cmp(shareZ) < 0 || new(big.Int).Add(sum(e, 1), slack).Cmp(shareQ) < 0 {
+						return "sentinel:cursor-advanced-past-an-unrewarded-epoch", fmt.Sprintf("the sentinel contract's last rewarded epoch is %d; the sentinel of %v was up for more than 90%% of epoch %d, but only %v ZNN / %v QSR were credited for that epoch (share %v / %v)",
+							cursor, en.Owner, e, sum(e, 0), sum(e, 1), shareZ, shareQ)
+					}
+					break
+				}
+			}
+		}
+	case types.PillarContract:
+		produced := map[int64]int{}
+		ms := n.Chain.GetFrontierMomentumStore()
+		for h := uint64(2); h <= n.Height(); h++ {
+			m, err := ms.GetMomentumByHeight(h)
+			if err != nil || m == nil {
+				panic(fmt.Sprintf("momentum %d: %v", h, err))
+			}
+			produced[int64(ticker.ToTick(*m.Timestamp))]++
+		}
+		for e := int64(0); e <= cursor; e++ {
+			if produced[e] > 0 && sum(e, 0).Sign() == 0 {
+				return "pillar:cursor-advanced-past-an-unrewarded-epoch", fmt.Sprintf("the pillar contract's last rewarded epoch is %d; %d momentums were produced in epoch %d, but no ZNN was credited for that epoch", cursor, produced[e], e)
+			}
+		}
+	}
+	return "", ""
 }
 
 func compare(prev, cur *snapshot) (string, string) {
@@ -328,6 +465,19 @@ func bases() []hx.Base {
 	}
 }
 
+// outageBases: a staker and a sentinel exist, then nothing is produced for 23 epochs (one momentum 139 slots later): when
+// production resumes more epochs are due at once than a single Update handles (constants.MaxEpochsPerUpdate = 20)
+func outageBases() []hx.Base {
+	return []hx.Base{{Name: "after-an-outage-of-23-epochs", Prefix: []ops.Op{
+		{K: "Call", S: "stake", A: 1, V: 10, B: 1}, {K: "Call", S: "sentinel-deposit-qsr", A: 5, V: 50000}, M, M, M, M,
+		{K: "Call", S: "sentinel-register", A: 5}, M, M, {K: "M", V: 139},
+	}}}
+}
+
+func outageAlphabet() []ops.Op {
+	return []ops.Op{M, {K: "M3"}, {K: "Call", S: "update-stake", A: 3}, {K: "Call", S: "stake-collect", A: 1}, {K: "Q"}}
+}
+
 func check(c *xs.Ctx, r *xs.Result, s *hx.Step, prev *[2]*snapshot, leaf bool) bool {
 	rep := map[string]interface{}{"base": s.Base, "history": s.History}
 	ok := true
@@ -437,7 +587,7 @@ func run(c *xs.Ctx, r *xs.Result) {
 		if err := json.Unmarshal(c.Replay, &rep); err != nil {
 			panic(err)
 		}
-		for _, b := range bases() {
+		for _, b := range append(bases(), outageBases()...) {
 			if b.Name != rep.Base {
 				continue
 			}
@@ -474,6 +624,11 @@ func run(c *xs.Ctx, r *xs.Result) {
 		KeyExtra: func(n *vnode.Node) string { return fmt.Sprint(queried[n]) },
 	}
 	e.Run()
+	if !r.Incomplete {
+		eo := *e
+		eo.Bases, eo.Alphabet = outageBases(), outageAlphabet()
+		eo.Run()
+	}
 	if c.Thorough() && !r.Incomplete {
 		e2 := *e
 		e2.Alphabet = alphabet(true)
